@@ -53,6 +53,8 @@ def run(ctx, rep):
     rep.rule("R02.4", "generated methods send CALLATTR with their own name and both operand kinds; method discovery covers metaclass and MRO")
     rep.rule("R02.5", "the StopIteration fast path is paired (= R09.7)")
     rep.rule("R02.6", "buffered iteration yields every fetched element in order and stops only on an empty chunk")
+    rep.rule("R02.8", "generated proxy classes are reused only for the exact class they were generated for (cache keyed by the "
+                      "whole id of a class object, never by name alone)")
     rep.rule("R02.7", "attribute get/set/del on a proxy: local names stay local, everything else goes to the matching handler with (name[, value])")
     rep.assume("result/exception equality of operations and target state after failed operations are not decided")
     table, rows = c06.handler_table(ctx)
@@ -297,3 +299,49 @@ def run(ctx, rep):
     okga = len(reqs) == 1 and reqs[0][1] == HG and A.src(reqs[0][2][0]) == A.params(fga.node)[1]
     rep.ob("R02.7", "BaseNetref.__getattr__ fetches the attribute by its own name", okga, "syncreq(self, HANDLE_GETATTR, name)"
            if okga else "__getattr__ sends something else", fga.loc)
+
+    # ------------------------------------------------------------------ R02.8
+    fnf = ctx.func(K.CONN + "._netref_factory")
+    gnf = ctx.cfg(fnf)
+    rep.analysed(fnf, gnf)
+    domn = Q.dominators(gnf)
+    idp = A.params(fnf.node)[1]
+    cache_nodes = []
+    for n in gnf.live:
+        if n.ast is None or n.kind not in ("stmt", "test"):
+            continue
+        for x in A.walk(n.ast):
+            if isinstance(x, ast.Subscript) and K.self_attr(x.value, "_netref_classes_cache"):
+                cache_nodes.append((n, x, "store" if isinstance(x.ctx, ast.Store) else "load"))
+            elif isinstance(x, ast.Compare) and len(x.ops) == 1 and isinstance(x.ops[0], ast.In) and \
+                    K.self_attr(x.comparators[0], "_netref_classes_cache"):
+                cache_nodes.append((n, x, "test"))
+    rep.floor("R02.8", "uses of the per-connection proxy-class cache in _netref_factory", len(cache_nodes), 3)
+    for n, x, what in cache_nodes:
+        key = x.slice if isinstance(x, ast.Subscript) else x.left
+        whole = A.src(key) == idp
+        conds = {A.src(t.ast): pol for t, pol in Q.dominating_conditions(gnf, n, domn)}
+        is_class = conds.get("%s[2] == 0" % idp) is True or (what == "test" and any(
+            isinstance(b, ast.BoolOp) and "%s[2] == 0" % idp in A.src(b) for b in A.ancestors(x) if isinstance(b, ast.BoolOp)))
+        ok = whole and is_class
+        rep.ob("R02.8", "_netref_factory: proxy-class cache %s keyed by the whole id of a class object" % what, ok,
+               "key `%s` under `%s[2] == 0`" % (A.src(key), idp) if ok else
+               "a generated proxy class is cached/reused under `%s`%s: two different target classes that share that key get the "
+               "same forwarding methods (wrong results / exception classes for the second one)"
+               % (A.src(key), "" if is_class else " for instances as well"), ctx.loc(x))
+    # the by-name cache is only the import-time table of builtin types
+    byname = [x for x in A.walk(fnf.node) if isinstance(x, ast.Subscript) and A.src(x.slice) == "%s[0]" % idp]
+    okb = all(A.src(x.value) == "netref.builtin_classes_cache" for x in byname)
+    rep.ob("R02.8", "_netref_factory: lookup by name alone only in the table of builtin types", okb,
+           "netref.builtin_classes_cache[id_pack[0]]" if okb else
+           "proxy classes are looked up by class name alone in `%s`" % [A.src(x.value) for x in byname if A.src(x.value) != "netref.builtin_classes_cache"],
+           fnf.loc, kind="site")
+    # every fresh class is generated from the inspected method list of *this* id
+    insp = [c for c in A.find_calls(fnf.node, "self.sync_request") if len(c.args) == 2]
+    HI = ctx.const("rpyc.core.consts", "HANDLE_INSPECT")
+    oki = len(insp) == 1 and ctx.try_fold(insp[0].args[0]) == HI and A.src(insp[0].args[1]) == idp
+    cf = A.find_calls(fnf.node, "netref.class_factory")
+    okcf = len(cf) == 1 and A.src(cf[0].args[0]) == idp
+    rep.ob("R02.8", "_netref_factory: a fresh proxy class is generated from the inspection of this very object", oki and okcf,
+           "sync_request(HANDLE_INSPECT, id_pack) -> class_factory(id_pack, methods)" if oki and okcf else
+           "the proxy class is not generated from the inspection of the received id", fnf.loc)
